@@ -139,3 +139,79 @@ Proof. vm_compute. reflexivity. Qed.
 Example C13_nonvacuous_points :
   point_counts [] [[[0;0];[1;0];[0;0]]; [[1;0]]; [[1;1];[0;0]]] = [2; 2; 3].
 Proof. reflexivity. Qed.
+
+(* ==================================================================================================================
+   Round 2: histories of several calls on ONE object, limits expressed through the API (explicit / default arguments)
+   ================================================================================================================== *)
+From SG Require Import Proofs.DriverLegs.
+
+(* the limits of a call are decided by ITS OWN arguments: an explicitly given tolerance is used as it is (0 included),
+   a default only replaces an argument that is not given; nothing of an earlier call enters (resolve has no other input) *)
+Theorem C13_explicit_arguments_are_the_limits : forall dt t m x, resolve dt (mkArgs (Some t) (Some m) x) = mkLimits t m x.
+Proof. exact resolve_explicit. Qed.
+Theorem C13_explicit_tolerance_zero_is_zero : forall dt am ax, l_tol (resolve dt (mkArgs (Some 0%Qc) am ax)) = 0%Qc.
+Proof. exact resolve_tol_zero. Qed.
+Theorem C13_defaults_of_the_two_entry_points :
+  resolve_perform (mkArgs None None None) = mkLimits default_tol_perform 1 None /\
+  resolve_continue (mkArgs None None None) = mkLimits default_tol_continue 1 None /\
+  (default_tol_continue < default_tol_perform)%Qc /\ (0 < default_tol_continue)%Qc.
+Proof. split; [reflexivity|]. split; [reflexivity|]. exact default_tols. Qed.
+
+(* EVERY call of a history performSpatiallyAdaptiv(a0); continue_adaptive_refinement(a1); ... stops iff an evaluation of
+   its own stream satisfies the limits resolved from its own arguments, exactly at the first such evaluation, appending
+   exactly the evaluations it performed to the history arrays it found - for every history, every argument combination
+   (tighter, looser, equal, zero, implicit), every stream *)
+Theorem C13_each_call_honours_its_own_limits : forall calls i a os s',
+  nth_error calls i = Some (a, os) ->
+  exists s0, nth_error (api_states true calls d_init) i = Some s0 /\
+    (nth_error (api_run true calls d_init) i = Some (s', true) <->
+     exists k, s' = after_stop s0 os k /\
+       (exists o, nth_error os k = Some o /\ stop_now (call_limits i a) o = true) /\
+       (forall j o, (j < k)%nat -> nth_error os j = Some o -> stop_now (call_limits i a) o = false)).
+Proof. exact each_call_honours_its_own_limits. Qed.
+Print Assumptions C13_each_call_honours_its_own_limits.
+
+Theorem C13_api_histories_one_entry_per_evaluation : forall calls s' b,
+  In (s', b) (api_run true calls d_init) -> hist_ok s'.
+Proof. intros calls s' b. apply (api_histories_ok calls true d_init hist_ok_init). Qed.
+
+(* the observation-stream machine IS the driver loop over the refinement state: for every state space and every
+   deterministic evaluate / refine / observe, the loop with its appends to the history arrays returns the state at the
+   first trajectory position satisfying the rule, and the arrays `drive` computes on the trajectory *)
+Theorem C13_driver_loop_is_stream_machine_on_trajectory :
+  forall (St : Type) (evaluate refine : St -> St) (observe : St -> obs) lim n s d,
+  run_rec St evaluate refine observe lim n s d =
+    match first_stop lim (traj St evaluate refine observe n s) with
+    | Some k => Some (state_at St evaluate refine k s, fst (drive lim (traj St evaluate refine observe n s) d))
+    | None => None
+    end.
+Proof. exact run_rec_is_drive_on_trajectory. Qed.
+Print Assumptions C13_driver_loop_is_stream_machine_on_trajectory.
+
+(* legs on one underlying stream: each leg stops at the first position, counted from the previous stop position
+   (inclusive: the re-evaluation), that satisfies its own limits *)
+Theorem C13_legs_honour_their_own_limits : forall l r os d p d',
+  legs_on_stream (l :: r) os d = Some (p, d') <->
+  exists k p', first_stop l os = Some k /\ legs_on_stream r (skipn k os) (fst (drive l os d)) = Some (p', d') /\ p = (k + p')%nat.
+Proof. exact legs_on_stream_step. Qed.
+
+(* non-vacuity: perform(tol=1/100, max=100); continue(tol=1/2000, max=100); continue(tol=1/100, max=400);
+   continue(tol=0, max=200) on one stream.  Leg 2 must go on although the error is below the tolerance of leg 1 (a driver
+   that kept the first tolerance would stop at once), leg 3 must stop at once although its point budget is larger,
+   leg 4 (tol = 0 given explicitly) must go on until the budget is exceeded. *)
+Example C13_nonvacuous_history :
+  let q n d := Q2Qc (n # Z.to_pos d) in
+  let o e p := mkObs (q e 10000) (q e 10000) p in
+  let os := [o 478 21; o 292 27; o 120 49; o 92 57; o 73 65; o 34 105; o 26 125; o 18 153; o 16 165; o 8 237] in
+  let h := [mkArgs (Some (q 1 100)) None (Some 100); mkArgs (Some (q 1 2000)) (Some 1) (Some 100);
+            mkArgs (Some (q 1 100)) None (Some 400); mkArgs (Some 0%Qc) None (Some 200)] in
+  exists d, legs_on_stream (resolve_history true h) os d_init = Some (9%nat, d) /\
+            d_pts d = [21; 27; 49; 57;  57; 65; 105;  105;  105; 125; 153; 165; 237] /\ d_refines d = 9 /\ hist_ok d /\
+            (* the stale-tolerance driver (seeded change C13r2) stops leg 2 at once: another history *)
+            legs_on_stream [resolve_perform (mkArgs (Some (q 1 100)) None (Some 100));
+                            resolve_continue (mkArgs (Some (q 1 100)) (Some 1) (Some 100))] os d_init
+              <> legs_on_stream (resolve_history true (firstn 2 h)) os d_init.
+Proof.
+  eexists. split; [vm_compute; reflexivity|]. split; [reflexivity|]. split; [reflexivity|]. split; [repeat split|].
+  vm_compute. discriminate.
+Qed.
